@@ -244,7 +244,12 @@ func vpsProducePart() {
 		doneMarkers = vpChoose("donemarkers", 2) == 1
 		shape = vpChoose("splitshape", 2)
 	} else {
-		switch vpChoose("config", 4) {
+		switch vpChoose("config", 5) {
+		case 4:
+			// ONE producer goroutine takes the ranges in descending key order (Orchestrate hands
+			// ranges out biggest first, and a producer takes whatever is next): state kept across
+			// ranges inside a producer must not leak from a higher range into a lower one
+			managed, backwardsOpt, walk = true, true, true
 		case 0:
 			managed, walk = true, true
 		case 1:
